@@ -151,6 +151,9 @@ func genOps(rng *rand.Rand, np, nh, n int, scripted, tcp bool) []opj {
 			}
 			ops = append(ops, opj{K: "restart", P: p})
 			up[p] = true
+			if !scripted && rng.Intn(2) == 0 {
+				ops = append(ops, opj{K: "stopold", P: p})
+			}
 		case x < 70:
 			if scripted {
 				e := fatalClasses[rng.Intn(len(fatalClasses))]
@@ -348,6 +351,21 @@ func corpus() []interface{} {
 		input{Kind: "real", Label: "reentrant-handler", TCP: true, NP: 2, NH: 2, HSend: 2, Ops: []opj{
 			{K: "send", P: 0, M: []int{1}}, {K: "send", P: 1, M: []int{2}}, {K: "peersend", P: 0, M: []int{5}}, {K: "crash", P: 0},
 			{K: "send", P: 1, M: []int{3}}, {K: "restart", P: 0}, {K: "send", P: 0, M: []int{4}}}},
+		// C09-G: the old incarnation is stopped once more after its successor listens on the same address;
+		// a survivor without a connection to the peer must still reach it
+		input{Kind: "real", Label: "old-incarnation-stopped-again", TCP: false, NP: 2, NH: 1, Ops: []opj{
+			{K: "send", P: 0, M: []int{1}}, {K: "crash", P: 0}, {K: "stopold", P: 0}, {K: "restart", P: 0}, {K: "stopold", P: 0},
+			{K: "send", P: 0, M: []int{2}}, {K: "peersend", P: 0, M: []int{3}}, {K: "crash", P: 0}, {K: "restart", P: 0},
+			{K: "stopold", P: 0}, {K: "send", P: 0, M: []int{4, 5}}, {K: "send", P: 1, M: []int{6}}}},
+		input{Kind: "real", Label: "old-incarnation-stopped-again", TCP: true, NP: 1, NH: 1, Ops: []opj{
+			{K: "send", P: 0, M: []int{1}}, {K: "crash", P: 0}, {K: "restart", P: 0}, {K: "stopold", P: 0},
+			{K: "send", P: 0, M: []int{2}}}},
+		// C09-H: several Sends meet the same dead TCP connection object while its receive loop is still
+		// busy notifying (first write after the FIN is taken by the kernel, the following ones fail)
+		input{Kind: "real", Label: "repeated-writes-to-a-dead-connection", TCP: true, NP: 2, NH: 1, Ops: []opj{
+			{K: "send", P: 0, M: []int{1}}, {K: "hold", H: 0}, {K: "crash", P: 0}, {K: "send", P: 0, M: []int{2}},
+			{K: "send", P: 0, M: []int{3}}, {K: "send", P: 0, M: []int{4, 5, 6}}, {K: "send", P: 1, M: []int{7}},
+			{K: "restart", P: 0}, {K: "send", P: 0, M: []int{8, 9}}, {K: "release"}, {K: "send", P: 0, M: []int{10}}}},
 		input{Kind: "real", Label: "crash-during-setup", TCP: false, NP: 1, NH: 1, Ops: []opj{
 			{K: "sendhold", P: 0, M: []int{1}}, {K: "crash", P: 0}, {K: "resume"}, {K: "restart", P: 0}, {K: "send", P: 0, M: []int{2}}}},
 		input{Kind: "real", Label: "crash-during-setup", TCP: true, NP: 1, NH: 1, Ops: []opj{
